@@ -497,9 +497,10 @@ class tie:
             if key not in seenp:
                 seenp.add(key)
                 psample.append(p)
-        if len(psample) > self.limit:
-            step = len(psample) / float(self.limit)
-            psample = [psample[int(i * step)] for i in range(self.limit)]
+        plimit = 24 if ctx.quick() else 600
+        if len(psample) > plimit:
+            step = len(psample) / float(plimit)
+            psample = [psample[int(i * step)] for i in range(plimit)]
         npipe, nps, pbad = PC.check_pipes(psample)
         ctx.count("pipeline: distinct conformations taken from the parsed atoms to the scoring input by the Lean model", npipe)
         ctx.count("pipeline: of these also scored by the Lean model after its own set-up", nps)
